@@ -56,6 +56,7 @@ def shards(tier, seed):
     out = []
     for kind in simgw.KINDS:
         out.append({"name": f"{kind}-refusals", "kind": kind, "what": "refusals", "tier": tier, "seed": seed})
+        out.append({"name": f"{kind}-fault-storm", "kind": kind, "what": "storm", "tier": tier, "seed": seed})
         for fault in ("eof", "reset", "garbage_eof", "write_error", "eof_midpacket"):
             if kind == "waveshare" and fault in ("eof", "garbage_eof", "eof_midpacket"):
                 continue
@@ -328,11 +329,84 @@ def conformance(spec, acc):
         acc.count("conformance_real_tcp_recoveries_equal")
 
 
+def storm(spec, acc):
+    """Many faults in a row on one client instance (every one after the previous recovery, mixed with refusals):
+    recovery must not depend on how many faults the client has already been through."""
+    kind = spec["kind"]
+    quick = spec["tier"] == "quick"
+    rng = gen.rng_for(spec["seed"], ID, spec["name"])
+    kinds_of_fault = ["reset", "eof", "garbage_eof", "write_error"]
+    if kind == "waveshare":
+        kinds_of_fault = ["reset", "write_error"]
+    if kind == "actisense":
+        kinds_of_fault = ["reset", "eof", "garbage_eof"]
+    for rep in range(3 if quick else 20):
+        n_faults = rng.randint(12, 25)
+        plan = [rng.choice(kinds_of_fault) for _ in range(n_faults)]
+        refusals = [rng.choice([0, 0, 1, 3]) for _ in range(n_faults)]
+        errs = refusal_errors(kind)
+
+        async def scenario(sim):
+            loop = sim.loop
+
+            def on_accept(conn):
+                loop.call_later(0.2, lambda: (not conn.lost and not conn.closing) and conn.feed(packet(kind, conn.id % 200)))
+            sim.on_accept.append(on_accept)
+            sim.spawn("connect")
+            await asyncio.sleep(1.0)
+            for f_, r_ in zip(plan, refusals):
+                live = [c for c in sim.conns if not c.lost and not c.closing and not c.eof_sent]
+                if not live:
+                    break
+                c = live[-1]
+                sim.connect_script = [("refuse", errs[rng.randrange(len(errs))], 0.01)] * r_
+                sim.ev("fault", fault=f_, conn=c.id)
+                if f_ == "eof":
+                    c.feed_eof()
+                elif f_ == "reset":
+                    c.reset(simgw.serial_loss_exception() if kind == "waveshare" else ConnectionResetError(104, "reset"))
+                elif f_ == "garbage_eof":
+                    c.feed(b"\x00\xffgarbage")
+                    c.feed_eof()
+                else:
+                    c.fail_write_after = 0
+                    sim.spawn("send", make_send_message(kind))
+                await asyncio.sleep(25.0)
+            sim.n_done = len([e for e in sim.trace if e["k"] == "fault"])
+            await sim.call("close")
+        sim, stats = simgw.run_session(kind, scenario, max_steps=600_000)
+        acc.count("sessions")
+        acc.case((kind, "storm", tuple(plan), tuple(refusals)))
+        w = {"client": kind, "plan": plan, "refusals": refusals, "status": sim.status[-12:] if sim else None}
+        if stats["error"]:
+            acc.inconclusive_because(f"simulator: {stats['error']} (storm)")
+            continue
+        faults = [e for e in sim.trace if e["k"] == "fault"]
+        acc.count("faults_injected", len(faults))
+        if len(faults) < len(plan):
+            acc.violation("no-recovery-in-fault-storm", f"{kind}: after {len(faults)} faults no live connection was left although the gateway accepts (planned {len(plan)})", w)
+            continue
+        delivered = {e["src"] for e in sim.trace if e["k"] == "recv"}
+        conns_with_frame = {c.id % 200 for c in sim.conns}
+        expected_status = ["CONNECTED"] + ["DISCONNECTED", "CONNECTED"] * len(plan) + ["CLOSED"]
+        if sim.status != expected_status:
+            acc.violation("status-trace-wrong-in-fault-storm", f"{kind}: {len(plan)} faults, status trace has {len(sim.status)} entries: ...{sim.status[-8:]}", w)
+        elif len(delivered) < len(conns_with_frame) - 1:
+            acc.violation("frames-not-delivered-in-fault-storm", f"{kind}: frames of {len(conns_with_frame)} connections expected, {len(delivered)} delivered", w)
+        else:
+            acc.count("recoveries_checked", len(plan))
+            acc.count("storm_sessions_ok")
+        if any(e["k"] == "loop_monopoly" for e in sim.trace):
+            acc.violation("receive-path-spins-on-end-of-stream:" + kind, f"{kind}: loop monopolised during a fault storm", w)
+
+
 def run_shard(spec, acc):
     kind = spec["kind"]
     quick = spec["tier"] == "quick"
     if spec["what"] == "conformance":
         return conformance(spec, acc)
+    if spec["what"] == "storm":
+        return storm(spec, acc)
     rng = gen.rng_for(spec["seed"], ID, spec["name"])
     if spec["what"] == "refusals":
         errs = refusal_errors(kind)
